@@ -313,10 +313,12 @@ async def worker(
                 # "break" and "finally", so that the queue is not populated again.
                 # TODO: LATER: Test the described scenario. I have found no ways to simulate
                 #  a timeout while the queue is filled -- neither with pure Python nor with mocks.
+                # Take the event directly rather than wait for it again: with a zero idle timeout,
+                # waiting times out always, even if the queue is filled, so it would never be taken.
                 if backlog.empty():
                     break
                 else:
-                    continue
+                    raw_event = backlog.get_nowait()
 
             # Exit gracefully and immediately on the end-of-stream marker sent by the watcher.
             if isinstance(raw_event, EOS):
